@@ -135,4 +135,122 @@ theorem scaleVec_leqAll {D : Nat} (hD : 0 < D) : ∀ {u v : List Rat} {a b : Vec
           rw [scaleQ_le hD hu'.1 hv'.1]
           exact and_congr Iff.rfl (ih hu'.2 hv'.2)
 
+
+/-! ## Splitting a scan over processes -/
+
+theorem everyKth_subset {α : Type} : ∀ (l : List α) (i k : Nat) {x : α}, x ∈ everyKth i k l → x ∈ l
+  | [], _, _, _, h => by simp [everyKth] at h
+  | a :: l, i, k, x, h => by
+    unfold everyKth at h
+    split at h
+    · rcases List.mem_cons.1 h with rfl | h
+      · simp
+      · exact List.mem_cons_of_mem _ (everyKth_subset l _ k h)
+    · exact List.mem_cons_of_mem _ (everyKth_subset l _ k h)
+
+theorem mem_everyKth {α : Type} {k : Nat} (hk : 0 < k) : ∀ (l : List α) {x : α}, x ∈ l → ∃ i, i < k ∧ x ∈ everyKth i k l
+  | [], _, h => by simp at h
+  | a :: l, x, h => by
+    rcases List.mem_cons.1 h with rfl | h
+    · exact ⟨0, hk, by simp [everyKth]⟩
+    · obtain ⟨j, hj, hx⟩ := mem_everyKth hk l h
+      by_cases hjk : j = k - 1
+      · subst hjk
+        exact ⟨0, hk, by simp [everyKth, hx]⟩
+      · refine ⟨j + 1, by omega, ?_⟩
+        unfold everyKth
+        simp [hx]
+
+/-- The parts `allPart s 0 k, …, allPart s (k-1) k` together are `all s`. -/
+theorem mem_all_iff_parts (s : SpecDesc) {k : Nat} (hk : 0 < k) (m : Mapping Nat) :
+    m ∈ all s ↔ ∃ i, i < k ∧ m ∈ allPart s i k := by
+  simp only [all, allPart, List.mem_flatMap]
+  constructor
+  · rintro ⟨ch, hch, hm⟩
+    obtain ⟨i, hi, hx⟩ := mem_everyKth hk _ hch
+    exact ⟨i, hi, ch, hx, hm⟩
+  · rintro ⟨i, _, ch, hch, hm⟩
+    exact ⟨ch, everyKth_subset _ _ _ hch, hm⟩
+
+/-! ## Two Einsums -/
+
+theorem mem_all2_iff (S : Spec2) (m0 m1 : Mapping Nat) :
+    (m0, m1) ∈ all2 S ↔ inSpace S.s0 m0 = true ∧ inSpace S.s1 m1 = true ∧ compatible S m0 m1 = true := by
+  simp only [all2, List.mem_flatMap, List.mem_map, List.mem_filter, Prod.mk.injEq, mem_all_iff]
+  constructor
+  · rintro ⟨a, ha, b, ⟨hb, hc⟩, rfl, rfl⟩
+    exact ⟨ha, hb, hc⟩
+  · rintro ⟨ha, hb, hc⟩
+    exact ⟨m0, ha, m1, ⟨hb, hc⟩, rfl, rfl⟩
+
+theorem mem_validCosts2 {S : Spec2} {ps : List (Mapping Nat × Mapping Nat)} {c : Cost} :
+    c ∈ validCosts2 S ps ↔ ∃ p ∈ ps, cost2 S p = some c ∧ c.fits = true := by
+  simp only [validCosts2, List.mem_filterMap]
+  constructor
+  · rintro ⟨p, hp, h⟩
+    cases hc : cost2 S p with
+    | none => simp [hc] at h
+    | some c' =>
+      simp only [hc] at h
+      by_cases hf : c'.fits = true
+      · simp only [hf, if_true, Option.some.injEq] at h
+        subst h
+        exact ⟨p, hp, hc, hf⟩
+      · simp [hf] at h
+  · rintro ⟨p, hp, hc, hf⟩
+    exact ⟨p, hp, by simp [hc, hf]⟩
+
+
+/-- The distinct things `combine` looks at: the halves of the members of one Einsum's space. -/
+def halves (s : SpecDesc) (x : TId) : List Half := (all s).filterMap (half s x)
+
+theorem half_key {s : SpecDesc} {x : TId} {m : Mapping Nat} {h : Half} (hh : half s x m = some h) :
+    fusedKey x m = some h.key := by
+  unfold half at hh
+  cases hk : fusedKey x m with
+  | none => simp [hk] at hh
+  | some key =>
+    cases hb : backingAt x 0 m with
+    | none => simp [hk, hb] at hh
+    | some p =>
+      cases ha : analytic s.arch s.workload (castM m) with
+      | none => simp [hk, hb, ha] at hh
+      | some r =>
+        simp only [hk, hb, ha, Option.some.injEq] at hh
+        subst hh
+        rfl
+
+/-- The valid costs of the fused space are exactly the within-capacity combinations of a half of Einsum 0 with a half
+of Einsum 1 (this is what the driver's `scan2` enumerates, after removing duplicate halves). -/
+theorem mem_validCosts2_halves (S : Spec2) (c : Cost) :
+    c ∈ validCosts2 S (all2 S) ↔
+      ∃ a ∈ halves S.s0 S.x0, ∃ b ∈ halves S.s1 S.x1, combine S.s0 a b = some c ∧ c.fits = true := by
+  rw [mem_validCosts2]
+  simp only [halves, List.mem_filterMap]
+  constructor
+  · rintro ⟨⟨m0, m1⟩, hp, hc, hf⟩
+    obtain ⟨h0, h1, _⟩ := (mem_all2_iff S m0 m1).1 hp
+    unfold cost2 at hc
+    cases ha : half S.s0 S.x0 m0 with
+    | none => simp [ha] at hc
+    | some a =>
+      cases hb : half S.s1 S.x1 m1 with
+      | none => simp [ha, hb] at hc
+      | some b =>
+        simp only [ha, hb] at hc
+        exact ⟨a, ⟨m0, (mem_all_iff _ _).2 h0, ha⟩, b, ⟨m1, (mem_all_iff _ _).2 h1, hb⟩, hc, hf⟩
+  · rintro ⟨a, ⟨m0, hm0, ha⟩, b, ⟨m1, hm1, hb⟩, hc, hf⟩
+    have hkey : a.key = b.key := by
+      unfold combine at hc
+      by_cases hk : a.key = b.key
+      · exact hk
+      · simp [hk] at hc
+    have hcomp : compatible S m0 m1 = true := by
+      unfold compatible
+      rw [half_key ha, half_key hb]
+      simp [hkey]
+    refine ⟨(m0, m1), (mem_all2_iff S m0 m1).2 ⟨(mem_all_iff _ _).1 hm0, (mem_all_iff _ _).1 hm1, hcomp⟩, ?_, hf⟩
+    simp only [cost2, ha, hb]
+    exact hc
+
 end AFV.Mapspace
